@@ -69,6 +69,8 @@ def render_field(f, ind, sp, path):
                 lines.append("%s    %s : %s," % (ind, lits[0], p["pkt"]))
             else:
                 lines.append("%s    [%s] : %s," % (ind, ", ".join(lits), p["pkt"]))
+        if s.get("nopaircomma"):
+            lines = [x.rstrip(",") for x in lines]
         return "%smatch %s as %s {\n%s\n%s}," % (ind, f["key"], f["name"], "\n".join(lines), ind)
     if k == "len":
         if s.get("prefixattr"):
